@@ -2,6 +2,7 @@ package bus
 
 import (
 	"bytes"
+	"sync"
 	"time"
 
 	"github.com/lugu/qiloop/bus/net"
@@ -23,7 +24,11 @@ type Channel interface {
 // server.
 type channel struct {
 	capability CapabilityMap
-	endpoint   net.EndPoint
+	// capMutex protects capability: the authentication service
+	// updates it from its own goroutine while the connection's
+	// goroutine consults it for each incoming message.
+	capMutex sync.RWMutex
+	endpoint net.EndPoint
 }
 
 // NewChannel retuns a channel
@@ -82,11 +87,15 @@ func (c *channel) Authenticate() error {
 
 // Authenticated returns true if the connection is authenticated.
 func (c *channel) Authenticated() bool {
+	c.capMutex.RLock()
+	defer c.capMutex.RUnlock()
 	return c.capability.Authenticated()
 }
 
 // SetAuthenticated marks the context as authenticated.
 func (c *channel) SetAuthenticated() {
+	c.capMutex.Lock()
+	defer c.capMutex.Unlock()
 	c.capability.SetAuthenticated()
 }
 
